@@ -1,9 +1,10 @@
 #!/venv/bin/python
-"""tools/seedregress.py [--jobs 3]  - re-validate every seeded change against the checks as they are now.
+"""tools/seedregress.py [--jobs 3] [--resume]  - re-validate every seeded change against the checks as they are now.
 
 For each seeded/<id>/: the patch must apply to /repo's working tree, the repository's tests must pass with it, its demo must fail
 with it, and at least one of the checks recorded as catching it (meta.json) must still report a violation.  Writes
-seeded/REGRESSION.json and prints one line per seed; exit 1 if any seed is no longer caught."""
+seeded/REGRESSION.json (rewritten after every seed, 'complete' false until the last one; --resume keeps the entries of an earlier
+incomplete run that were caught) and prints one line per seed; exit 1 if any seed is no longer caught."""
 import concurrent.futures, json, os, subprocess, sys
 HERE = os.path.dirname(os.path.dirname(os.path.abspath(__file__)))
 
@@ -29,14 +30,25 @@ def one(sid):
 
 def main():
     jobs = int(sys.argv[sys.argv.index('--jobs') + 1]) if '--jobs' in sys.argv else 3
-    sids = sorted(x for x in os.listdir(os.path.join(HERE, 'seeded')) if os.path.isdir(os.path.join(HERE, 'seeded', x)))
+    sids = sorted((x for x in os.listdir(os.path.join(HERE, 'seeded')) if os.path.isfile(os.path.join(HERE, 'seeded', x, 'meta.json'))),
+                  key=lambda x: (x[:3] in ('C01', 'C02', 'C03'), x))      # the three slowest checks last
+    path = os.path.join(HERE, 'seeded', 'REGRESSION.json')
     out = {}
+    if '--resume' in sys.argv and os.path.exists(path):
+        out = {k: v for k, v in json.load(open(path)).get('results', {}).items() if v.get('caught') and k in sids}
+        sids = [x for x in sids if x not in out]
+
+    def dump(complete):
+        bad = [s for s, r in out.items() if not r.get('caught')]
+        json.dump({'seeds': len(out), 'caught': len(out) - len(bad), 'not_caught': bad, 'complete': complete, 'results': out}, open(path + '.tmp', 'w'), indent=1, sort_keys=True)
+        os.replace(path + '.tmp', path)
+        return bad
     with concurrent.futures.ThreadPoolExecutor(jobs) as ex:
         for sid, res in ex.map(one, sids):
             out[sid] = res
             print('%-8s %s' % (sid, 'retired' if res.get('retired') else ('caught by ' + ','.join(k for k, v in res.get('checks', {}).items() if v == 1) if res.get('caught') else 'NOT CAUGHT %s' % res)), flush=True)
-    bad = [s for s, r in out.items() if not r.get('caught')]
-    json.dump({'seeds': len(out), 'caught': len(out) - len(bad), 'not_caught': bad, 'results': out}, open(os.path.join(HERE, 'seeded', 'REGRESSION.json'), 'w'), indent=1, sort_keys=True)
+            dump(False)
+    bad = dump(True)
     print('%d seeds, %d caught, not caught: %s' % (len(out), len(out) - len(bad), bad))
     return 1 if bad else 0
 
